@@ -134,6 +134,31 @@ func finalizeAndRespond(r responder.Responder, resp io.Reader, status int, req *
 }
 
 func (p *Proxy) handleRangeRequest(r responder.Responder, req *http.Request, cached *cache.Entry[cachedRequestInfo], key cache.CacheKey, clientHd *headers.HeaderDirectives) error {
+	// If-Range comes first: when it does not match the stored validator the Range is not looked at
+	// at all (RFC 9110 section 13.1.5), so a range that no longer fits the current representation is
+	// answered with the full 200, not with 416.
+	if clientHd.IfRange.IsPresent() {
+		ifRange := clientHd.IfRange.Value()
+		if ifRange.IsLeft() {
+			// IfRange is ETag
+			etagIfRange := ifRange.ForceUnwrapLeft()
+			if etagIfRange != cached.Metadata.Object.ETag {
+				slog.Info("If-Range does not match cached ETag. Sending full 200 response.", "url", req.URL, "key", key)
+				return ErrIfRangeMismatch
+			}
+		} else {
+			// IfRange is Time
+			timeIfRange := ifRange.ForceUnwrapRight()
+			// A date validator matches only if it is exactly the stored Last-Modified (RFC 9110
+			// section 13.1.5); a later date does not denote this representation either.
+			if !timeIfRange.Equal(cached.Metadata.Object.LastModified) {
+				slog.Info("If-Range does not match cached Last-Modified. Sending full 200 response.", "url", req.URL, "key", key)
+				return ErrIfRangeMismatch
+			}
+		}
+
+	}
+
 	rangeHeader := clientHd.Range.Value()
 	start, end, err := rangeHeader.SliceSize(cached.Metadata.Size)
 	if err != nil {
@@ -163,28 +188,6 @@ func (p *Proxy) handleRangeRequest(r responder.Responder, req *http.Request, cac
 
 		r.SetHeaders(header)
 		return finalizeAndRespond(r, data, status, req)
-	}
-
-	if clientHd.IfRange.IsPresent() {
-		ifRange := clientHd.IfRange.Value()
-		if ifRange.IsLeft() {
-			// IfRange is ETag
-			etagIfRange := ifRange.ForceUnwrapLeft()
-			if etagIfRange != cached.Metadata.Object.ETag {
-				slog.Info("If-Range does not match cached ETag. Sending full 200 response.", "url", req.URL, "key", key)
-				return ErrIfRangeMismatch
-			}
-		} else {
-			// IfRange is Time
-			timeIfRange := ifRange.ForceUnwrapRight()
-			// A date validator matches only if it is exactly the stored Last-Modified (RFC 9110
-			// section 13.1.5); a later date does not denote this representation either.
-			if !timeIfRange.Equal(cached.Metadata.Object.LastModified) {
-				slog.Info("If-Range does not match cached Last-Modified. Sending full 200 response.", "url", req.URL, "key", key)
-				return ErrIfRangeMismatch
-			}
-		}
-
 	}
 
 	length := end - start + 1
